@@ -3,7 +3,7 @@
    real-number instance RNum; erf is a Section variable. *)
 From Coq Require Import Reals ZArith List Bool Lra Lia.
 From Coquelicot Require Import Coquelicot.
-From Sky Require Import Result Num NumR G_flux M_Flux.
+From Sky Require Import Result Num NumX NumR G_flux M_Flux.
 Import ListNotations.
 Open Scope R_scope.
 
@@ -47,9 +47,26 @@ Section WithErf.
   Proof. unfold pl_is_g1. num_R. apply Reqb_true. Qed.
   Lemma K_pl_int_g1 E0 E1 E2 : pl_int_g1 RN E0 E1 E2 = E0 * ln (E2 / E1).
   Proof. reflexivity. Qed.
-  Lemma K_pl_int_gen E0 g E1 E2 :
+  (* Kahan's expm1 is exp x - 1 over the reals *)
+  Lemma nexpm1_R x : nexpm1 RN x = exp x - 1.
+  Proof.
+    unfold nexpm1. cbv zeta. num_R. destruct (Reqb (exp x) 1) eqn:H.
+    - apply Reqb_true in H. rewrite <- exp_0 in H. apply exp_inv in H. subst x. rewrite exp_0. lra.
+    - apply Reqb_false in H. rewrite ln_exp.
+      assert (x <> 0) by (intros ->; apply H; apply exp_0). field. assumption.
+  Qed.
+  (* since fix 9e8285f the code computes E0^g E1^(1-g) expm1((1-g) ln(E2/E1)) / (1-g) *)
+  Lemma K_pl_int_gen E0 g E1 E2 : 0 < E1 -> 0 < E2 -> g <> 1 ->
     pl_int_gen RN E0 g E1 E2 = Rpower E0 g / (1 - g) * (Rpower E2 (1 - g) - Rpower E1 (1 - g)).
-  Proof. unfold pl_int_gen. num_R. reflexivity. Qed.
+  Proof.
+    intros H1 H2 Hg. unfold pl_int_gen. rewrite nexpm1_R. num_R.
+    change (Rpower E0 g * Rpower E1 (1 - g) * (exp ((1 - g) * ln (E2 / E1)) - 1) / (1 - g)
+            = Rpower E0 g / (1 - g) * (Rpower E2 (1 - g) - Rpower E1 (1 - g))).
+    unfold Rpower. rewrite ln_div by assumption.
+    replace (exp ((1 - g) * ln E2)) with (exp ((1 - g) * ln E1) * exp ((1 - g) * (ln E2 - ln E1)))
+      by (rewrite <- exp_plus; f_equal; ring).
+    field. lra.
+  Qed.
   Lemma K_co_factor v E Ec : co_factor RN v E Ec = v * exp (- E / Ec).
   Proof. reflexivity. Qed.
   Lemma K_lp_call E E0 a b :
@@ -145,12 +162,12 @@ Section WithErf.
     - apply K_pl_int_g1.
     - assert (pl_is_g1 RN 1 = true) by (apply K_pl_is_g1; reflexivity). congruence.
   Qed.
-  Lemma pl_integral_gen E0 g E1 E2 : g <> 1 ->
+  Lemma pl_integral_gen E0 g E1 E2 : 0 < E1 -> 0 < E2 -> g <> 1 ->
     pl_integral RN E0 g E1 E2 = Rpower E0 g / (1 - g) * (Rpower E2 (1 - g) - Rpower E1 (1 - g)).
   Proof.
-    intros Hg. unfold pl_integral. destruct (pl_is_g1 RN g) eqn:H.
+    intros H1 H2 Hg. unfold pl_integral. destruct (pl_is_g1 RN g) eqn:H.
     - apply K_pl_is_g1 in H. contradiction.
-    - apply K_pl_int_gen.
+    - apply K_pl_int_gen; assumption.
   Qed.
 
   Lemma box_integral_spec ts te t1 t2 :
@@ -235,7 +252,7 @@ Section WithErf.
     destruct (Req_dec g 1) as [Hg|Hg].
     - replace (pl_integral RN E0 g E1 E2) with (E0 * ln (E2 / E1)) by (rewrite Hg, pl_integral_g1; reflexivity).
       apply pl_is_RInt_g1; assumption.
-    - rewrite pl_integral_gen by assumption. apply pl_is_RInt_gen; assumption.
+    - rewrite pl_integral_gen by lra. apply pl_is_RInt_gen; assumption.
   Qed.
 
   (* additivity of every closed form over adjacent intervals *)
